@@ -286,7 +286,8 @@ def default_known_match(k, f):
 
 def finish(ctx, known_match=None):
     """verdict per DESIGN 4.3; writes evidence; prints VIOLATION / KNOWN-FINDING lines; returns exit code"""
-    known = [k for k in load_known() if k.get('property') == ctx.pid and k.get('status') == 'open']
+    props = {ctx.pid} | set(getattr(ctx, 'also_props', ()))
+    known = [k for k in load_known() if k.get('property') in props and k.get('status') == 'open']
     violations = []
     os.makedirs(os.path.join(VERIF, 'replay'), exist_ok=True)
     # rule 3 / rule 1: oracle failures
